@@ -17,7 +17,7 @@ def corrupt_expr(rnd, e):
     return '', 'empty'
 
 def run(ctx):
-    rnd = ctx['rnd']; n = 400 if ctx['tier'] == 'quick' else 20000
+    rnd = ctx['rnd']; n = 4000 if ctx['tier'] == 'quick' else 20000
     cases = []; meta = {}
     data = gen.stream(gen.records(rnd, 5)) or b'{"a":1}'
     for i in range(n):
